@@ -226,6 +226,9 @@ class System:
             one.clear()
             one.update(chs)
             return one
+        if self.lp.get('setmode') == 'list':
+            # the names as a list in which the first one comes twice (a caller who joins two lists of names): the same selection
+            return list(chs[:1]) + list(chs)
         key = repr(chs)
         if key not in self.chsets:
             self.chsets[key] = set(chs)
@@ -502,7 +505,7 @@ def gen_H(tier):
     t0 = [ch('X', 7, [1]), ch('A', 13, [3]), ch('B', 2, [1])]
     t1 = [ch('TIME', 17, [1]), ch('X', 2, [1], copy=1), ch('C', 5, [2, 2])]     # the first type's index name is an ordinary channel here
     for n0, n1, layout in [(3, 2, 'one'), (4, 3, 'split'), (2, 2, 'one')]:
-        for setmode in ('kept', 'edited'):
+        for setmode in ('kept', 'edited', 'list'):
             lp = {'types': [{'name': 'FT0', 'channels': t0, 'n': n0}, {'name': 'FT1', 'channels': t1, 'n': n1}],
                   'order': list(itertools.islice(itertools.cycle([0, 1]), 2 * min(n0, n1))) + [0] * (n0 - min(n0, n1)) + [1] * (n1 - min(n0, n1)),
                   'layout': layout, 'setmode': setmode}
@@ -514,7 +517,7 @@ def h_menu(lp):
     for ti, t in enumerate(lp['types']):
         names = [c['name'] for c in t['channels'][1:]]
         for sel in H_SELS:
-            for cs in (None, [], names[:1], ['NOPE']):
+            for cs in (None, [], names[:1], ['NOPE']) + ((names,) if lp.get('setmode') == 'list' else ()):
                 ops.append(['populate', ti, sel, cs])
     return ops
 
